@@ -391,7 +391,7 @@ fn conv_values() -> Vec<(String, f64, &'static str)> {
     v
 }
 
-const CONV_FORMS: [&str; 7] = ["assign", "cint", "divint", "mod", "logical", "subscript", "on"];
+const CONV_FORMS: [&str; 9] = ["assign", "cint", "divint", "mod", "logical", "subscript", "on", "divint_r", "mod_r"];
 
 fn gen_conv(part: usize, parts: usize, _th: bool, emit: &mut dyn FnMut(&str)) {
     let vals = conv_values();
@@ -425,6 +425,27 @@ fn check_conv(item: &str, _ctx: &Ctx) -> Outcome {
         "divint" => (format!("PRINT {}\\1", src), vec![if in_range { fmt_int(n) } else { "?OVERFLOW\n".into() }]),
         "mod" => (format!("PRINT {} MOD 32767", src), vec![if in_range { fmt_int(n % 32767) } else { "?OVERFLOW\n".into() }]),
         "logical" => (format!("PRINT {} OR 0", src), vec![if in_range { fmt_int(n) } else { "?OVERFLOW\n".into() }]),
+        // the float as the divisor: converted first, so a fraction in [0,1) is a zero divisor
+        "divint_r" => (
+            format!("PRINT 7\\{}", src),
+            vec![if !in_range {
+                "?OVERFLOW\n".into()
+            } else if n == 0 {
+                "?DIVISION BY ZERO\n".into()
+            } else {
+                fmt_int(7 / n)
+            }],
+        ),
+        "mod_r" => (
+            format!("PRINT -7 MOD {}", src),
+            vec![if !in_range {
+                "?OVERFLOW\n".into()
+            } else if n == 0 {
+                "?DIVISION BY ZERO\n".into()
+            } else {
+                fmt_int(-7 % n)
+            }],
+        ),
         "subscript" => (
             format!("DIM Q%(32767):Q%({})=7:PRINT Q%({})", src, src),
             if in_range && n >= 0 {
